@@ -115,6 +115,8 @@ func parseStep(text string) (st step, err error) {
 		return opStrGetMany(p.strs()), nil
 	case "str.Incr":
 		return opStrIncr(p.str(), p.int()), nil
+	case "str.IncrFloat":
+		return opStrIncrFloat(p.str(), p.score()), nil
 	case "str.Set":
 		return opStrSet(p.str(), p.str(), false), nil
 	case "str.SetExpires":
@@ -231,6 +233,8 @@ func parseStep(text string) (st step, err error) {
 		return opHashGet(p.str(), p.str()), nil
 	case "hash.GetMany":
 		return opHashGetMany(p.str(), p.strs()), nil
+	case "hash.IncrFloat":
+		return opHashIncrFloat(p.str(), p.str(), p.score()), nil
 	case "hash.Incr":
 		return opHashIncr(p.str(), p.str(), p.int()), nil
 	case "hash.Items":
